@@ -418,6 +418,17 @@ CLAIMED['C05']['text'] = (
     'run), incl. a fresh-process/same-process family against process-global state; colour is covered by CLI runs only. holds_C05 also '
     'requires, for every history, equal final costs under quiet and non-quiet, final cost = sum of the leaf edits, and the '
     'get_all_edits / edited_cost views on fresh trees to agree for both settings.')
+
+CLAIMED['C02']['text'] = CLAIMED['C02']['text'].replace(
+    'The command-line half (exit status and change marks vs cost, three output modes x three strategies) is decided by differential '
+    'runs of the real CLI, not by a theorem.',
+    'Command-line half: the exit status is a theorem over the model of what __main__ computes (had_edits = some edit of the flat '
+    'get_all_edits view has non-zero cost): for every additive, priced script the flag is set iff the total cost is positive '
+    '(C02_exit_flat), hence for every model script exit 0 <-> cost 0 and exit 1 <-> cost > 0 (C02_exit_cost), exit 0 <-> equal as data '
+    'under the carve-outs (C02_exit), and the model\'s status is the value the executable statement compares the OBSERVED status with '
+    '(C02_exit_cli); that model of __main__ is hand-written and tied by the differential runs of the real CLI (three output modes x '
+    'three strategies). The change marks of the rendered output are compared on the implementation only.')
+CLAIMED['C02']['note'] = CLAIMED['C02']['note'].replace(' CLI exit status / marks: implementation runs only.', ' CLI marks: implementation runs only; the model of the exit flag is hand-written.')
 NOT_YET = 'model and theorem not completed yet (DESIGN.md section 7)'
 NA = {}
 
